@@ -374,7 +374,7 @@ Definition and_then (f g : chan -> chan * outp) (ch : chan) : chan * outp :=
   | _ => (ch1, o1)
   end.
 
-Definition step (s : slot) (o : op) : slot * outp :=
+Definition step0 (s : slot) (o : op) : slot * outp :=
   match o with
   | ValidateHolder n c sg pl => on_ready s (fun ch => do_validate ch n c sg pl)
   | Revoke n py => on_ready s (fun ch => do_revoke ch n py)
@@ -435,6 +435,21 @@ Definition step (s : slot) (o : op) : slot * outp :=
       | Stub => (Stub, ok0)
       | Ready ch => (Ready (mkC (disk ch) (disk ch)), ok0)
       end
+  end.
+
+(** a panic ends the signer process; the next request is served by a signer restarted from the
+    store, so an aborting request leaves the persisted image as the state *)
+Definition crash (s : slot) : slot :=
+  match s with
+  | Stub => Stub
+  | Ready ch => Ready (mkC (disk ch) (disk ch))
+  end.
+
+Definition step (s : slot) (o : op) : slot * outp :=
+  let '(s', r) := step0 s o in
+  match st r with
+  | Abort => (crash s', r)
+  | _ => (s', r)
   end.
 
 End Step.
